@@ -185,7 +185,11 @@ func DecodeAny(tc TypeCodec, to *TypedObj) (interface{}, error) {
 		}
 	case TypeDict:
 		m := make(map[string]interface{})
-		for k, nto := range to.Object.(*TypedDict).Map {
+		dict, _ := to.Object.(*TypedDict)
+		if dict == nil {
+			return m, nil
+		}
+		for k, nto := range dict.Map {
 			var err error
 			m[k], err = DecodeAny(tc, nto)
 			if err != nil {
